@@ -44,7 +44,9 @@ theorem dedup_keeps_latest {src dst : Nat} {cores nonCores : List Seg} {out : Li
 
 /-- **No AS owns more than `LOOP_MAX_IFS` (= 2) interfaces of an offered path**, all inputs: an AS
 that is traversed contributes its ingress and its egress interface; a third interface of the same AS
-means the path comes back to it. -/
+means the path comes back to it.  This is the filter `has_loops` restated (true by construction of
+`finish`); it is the interface-count predicate the code implements, not "no AS twice in the AS
+sequence" — the latter is checked by the harness on well-formed sets only. -/
 theorem loop_free {src dst : Nat} {cores nonCores : List Seg} {out : List Path}
     (h : combine src dst cores nonCores = .ok out) {p : Path} (hp : p ∈ out) (ia : Nat) :
     (p.ifs.filter fun j => decide (j.1 = ia)).length ≤ LOOP_MAX_IFS := by
@@ -77,7 +79,9 @@ theorem expiry_is_min {src dst : Nat} {cores nonCores : List Seg} {out : List Pa
 
 /-- **Soundness, all inputs.**  Every offered path is realised by a combination that the declarative
 rules of `Spec/Combine.lean` allow for the given segments, source and destination: one to three valid
-pieces of given segments, kinds `up?·core?·down?`, consecutive pieces meeting at one AS or across a
+pieces of given segments, uses `up?·core?·down?` (`Spec.usesOk`: a non-core segment travelled from
+its leaf is an up use, towards its leaf a down use; strictly ordered up < core < down, so no valley —
+false for the code before `fix: combinator must not offer valley paths`), consecutive pieces meeting at one AS or across a
 peering link recorded on both sides, starting at `src` and ending at `dst`; the data-plane segments
 (direction and peering flags, initial SegID, timestamp, hop fields in travel order) and the interface
 list are exactly those the specification assigns to that combination; `src_ia` / `dst_ia` are the ASes
@@ -121,8 +125,10 @@ theorem natFoldlMin_mem (l : List Nat) : ∀ (a : Nat), l.foldl min a = a ∨ l.
 
 /-- **The MTU of an offered path is the minimum over the traversed ASes and links**, all inputs.
 There is a candidate solution `s` realising `p` such that `p.mtu` is the minimum of `u16::MAX` and the
-values `solMtuTerms s`: for every AS entry the solution traverses its AS-internal MTU (as the code
-reads it: truncated to `u16`), the MTU of its ingress link unless that link is not traversed (shortcut
+values `solMtuTerms s`: for every AS entry the solution traverses its AS-internal MTU (the `u32` value
+capped at `u16::MAX`, which is also the initial value — so the cap never changes the minimum; before
+`fix: combinator must not truncate an AS MTU above u16::MAX` the code truncated and this was false:
+corpus/C04/030-as-mtu-above-u16.case), the MTU of its ingress link unless that link is not traversed (shortcut
 cut) or absent (`0`), and the MTU of the peering link at a peering cut (`linkTerm`, `mtuTerms`).
 So no traversed AS or link has a smaller MTU than announced, and the announced value is attained. -/
 theorem mtu_is_min {src dst : Nat} {cores nonCores : List Seg} {out : List Path}
@@ -163,6 +169,17 @@ theorem mem_solMtuTerms {s : Sol} {t : Nat} :
     · rcases ht with ht | ht
       · exact Or.inr ht
       · exact Or.inl ht
+
+/-- the announced MTU never exceeds the (untruncated) MTU of a traversed AS -/
+theorem mtu_le_as_mtu {src dst : Nat} {cores nonCores : List Seg} {out : List Path}
+    (h : combine src dst cores nonCores = .ok out) {p : Path} (hp : p ∈ out) :
+    ∃ s ∈ candidates (graphOf (inputSegs cores nonCores)) src dst, solPath s = .path p ∧
+      ∀ e ∈ s.edges, ∀ x ∈ e.seg.seg.entries.zipIdx, e.edge.shortcut ≤ x.2 → p.mtu ≤ x.1.mtu := by
+  rcases mtu_is_min h hp with ⟨s, hs, hsp, _, _, hle, _⟩
+  refine ⟨s, hs, hsp, ?_⟩
+  intro e he x hx hsc
+  have := hle (min x.1.mtu AS_MTU_SAT) (mem_solMtuTerms.mpr ⟨e, he, x, hx, hsc, Or.inl rfl⟩)
+  omega
 
 /-- example of a well-formed segment `3 → 2 → 1` -/
 def segWfEx : Seg :=
@@ -341,9 +358,10 @@ theorem sorted_by_cost {src dst : Nat} {cores nonCores : List Seg} {out : List P
       simp only [List.map_nil, List.nil_append] at this
       exact this
 
-/-- when the cost of every candidate is the number of links of its path (true for well-formed
-segments: every traversed link contributes one egress and one ingress interface), the offered paths
-are in non-decreasing order of hop count -/
+/-- when the cost of every candidate is the number of links of its path (`hlinks`; expected for
+well-formed segments, where every traversed link contributes one egress and one ingress interface —
+NOT derived from `SegWf` here, the example after the theorem shows it is satisfiable), the offered
+paths are in non-decreasing order of hop count -/
 theorem sorted_by_hop_count {src dst : Nat} {cores nonCores : List Seg} {out : List Path}
     (h : combine src dst cores nonCores = .ok out)
     (hlinks : ∀ s ∈ candidates (graphOf (inputSegs cores nonCores)) src dst, ∀ p, solPath s = .path p →
@@ -388,6 +406,17 @@ theorem sorted_by_hop_count {src dst : Nat} {cores nonCores : List Seg} {out : L
         · cases hk''
       omega
 
+/-- non-vacuity of `hlinks`: it holds for the candidates of the well-formed segment `segWfEx` -/
+example : ∀ s ∈ candidates (graphOf (inputSegs [] [segWfEx])) 1 3, ∀ p, solPath s = .path p →
+    p.ifs.length = 2 * s.cost := by
+  have h : ∀ s ∈ candidates (graphOf (inputSegs [] [segWfEx])) 1 3,
+      (match solPath s with | .path p => decide (p.ifs.length = 2 * s.cost) | _ => true) = true := by
+    decide +kernel
+  intro s hs p hp
+  have := h s hs
+  rw [hp] at this
+  simpa using this
+
 /-! ## 8. complete (with respect to the multigraph) -/
 
 /-- **Completeness of search, filter and de-duplication, all inputs.**  Take any chain `es` of edges of
@@ -412,12 +441,15 @@ peering link twice in a segment —, the leaf AS of a segment occurs nowhere els
 has at least two AS entries).  Then every combination `c` that the declarative rules allow
 (`Spec.Valid`), whose intermediate joints are not the destination AS (the search stops at the first
 arrival at `dst`; a combination passing through `dst` would visit it twice), is found: it is the piece
-list of a candidate solution `t`; and if its path encodes (`solPath t = .path p`: at most 63 hop fields
-per segment, size within the header limit, at least one interface) and is loop-free, then a path with
-exactly the interface list of `c` is offered, expiring no earlier than `p`.
+list of a candidate solution `t`; and if the model's `path()` returns a path `p` for it
+(`solPath t = .path p`) that passes the loop filter, then a path with exactly the interface list of `c`
+is offered, expiring no earlier than `p`.  This statement is conditional on the model's own `solPath`
+and `hasLoops`; `complete_encodable` below replaces them by conditions on the combination
+(`solPath_of_encodable`: `path()` returns a path iff the combination's segments pass `wire_valid` and
+it names an interface).
 
 Together with `sound`: for faithful segment sets the offered interface lists are exactly those of the
-loop-free, encodable valid combinations. -/
+valid (valley-free) combinations that encode and pass the interface-count loop filter. -/
 theorem complete {src dst : Nat} {cores nonCores : List Seg} {out : List Path}
     (h : combine src dst cores nonCores = .ok out) (hne : src ≠ dst)
     (hg : GraphFaithful (inputSegs cores nonCores))
@@ -434,6 +466,56 @@ theorem complete {src dst : Nat} {cores nonCores : List Seg} {out : List Path}
   refine ⟨hr, ?_⟩
   rcases dedup_keeps_latest h t ht p hp hl hne with ⟨q, hq, hqi, hqe⟩
   exact ⟨q, hq, by rw [hr]; exact hqi, hqe⟩
+
+/-- the loop filter `has_loops` as a predicate on an interface list -/
+def IfsLoopFree (ifs : List (Nat × Nat)) : Prop :=
+  ∀ i ∈ ifs, (ifs.filter fun j => decide (j.1 = i.1)).length ≤ LOOP_MAX_IFS
+
+/-- **Completeness with an explicit sufficient condition.**  As `complete`, but the condition "its
+path encodes and is loop-free" is stated on the combination itself, with decidable hypotheses that do
+not mention the model's `solPath` / `hasLoops`: the data-plane segments the specification assigns to
+`c` pass the rejection tests of `wire_valid` (`encodeOk`: every piece has 1..`MAX_SEGMENT_HOPS` hop
+fields, at most `TOTAL_HOPS_LIMIT` in total, size within the header), `c` names at least one interface,
+and no AS owns more than `LOOP_MAX_IFS` interfaces of its interface list.  Then a path with exactly the
+interface list of `c` is offered.  (`IfsLoopFree` is still the interface-count predicate of the code,
+not "no AS twice in the AS sequence".) -/
+theorem complete_encodable {src dst : Nat} {cores nonCores : List Seg} {out : List Path}
+    (h : combine src dst cores nonCores = .ok out) (hne : src ≠ dst)
+    (hg : GraphFaithful (inputSegs cores nonCores))
+    (c : List Spec.Piece) (hv : Spec.Valid (inputSegs cores nonCores) src dst c)
+    (hmid : ∀ p ∈ c.dropLast, p.to? ≠ some (.as dst))
+    (henc : encodeOk (c.map Spec.Piece.pseg) = true)
+    (hifs : c.flatMap Spec.Piece.ifs ≠ [])
+    (hloop : IfsLoopFree (c.flatMap Spec.Piece.ifs)) :
+    ∃ q ∈ out, q.ifs = c.flatMap Spec.Piece.ifs := by
+  rcases combo_candidate hg hv hmid with ⟨t, ht, hc⟩
+  have hsol := candidates_solOk _ _ _ t ht
+  have hne' : t.edges ≠ [] := by
+    intro he
+    rw [he] at hc
+    simp at hc
+    rw [hc] at hifs
+    simp at hifs
+  rw [← hc] at henc hifs
+  rcases solPath_of_encodable hsol (fun e he => graphOf_edgeOk he) hne' henc hifs with ⟨p, hp, _, hpi⟩
+  have hl : hasLoops p = false := by
+    unfold hasLoops
+    rw [List.any_eq_false]
+    intro i hi
+    rw [hpi, hc] at hi ⊢
+    have := hloop i hi
+    simp only [decide_eq_true_eq]
+    omega
+  rcases dedup_keeps_latest h t ht p hp hl hne with ⟨q, hq, hqi, _⟩
+  exact ⟨q, hq, by rw [hqi, hpi, hc]⟩
+
+/-- non-vacuity of the hypotheses of `complete_encodable`: the whole up use of `segWfEx` -/
+example : encodeOk ([(⟨⟨false, segWfEx⟩, 0, false, none⟩ : Spec.Piece)].map Spec.Piece.pseg) = true ∧
+    [(⟨⟨false, segWfEx⟩, 0, false, none⟩ : Spec.Piece)].flatMap Spec.Piece.ifs ≠ [] := by
+  constructor <;> decide
+
+example : IfsLoopFree ([(⟨⟨false, segWfEx⟩, 0, false, none⟩ : Spec.Piece)].flatMap Spec.Piece.ifs) := by
+  unfold IfsLoopFree; decide
 
 /-- non-vacuity: the segment set `[segWfEx]` is faithful -/
 example : GraphFaithful (inputSegs [] [segWfEx]) := by
